@@ -7,7 +7,7 @@ from props import c07
 def run(R):
     if not R.build():
         return
-    R.lean(["C08"])
+    R.lean(["C08", "C08Driver"])
     quick = R.tier == "quick"
     rng = R.rng
     # the section loop of the parser must leave every stream: `parseall` reports "loop" when 64 passes were not enough
